@@ -13,6 +13,7 @@
 #include <ompl/base/goals/GoalRegion.h>
 #include <ompl/base/goals/GoalState.h>
 #include <ompl/base/goals/GoalStates.h>
+#include <ompl/base/goals/GoalLazySamples.h>
 #include <ompl/base/spaces/RealVectorStateSpace.h>
 #include <ompl/base/spaces/SE2StateSpace.h>
 #include <ompl/base/spaces/SE3StateSpace.h>
@@ -26,6 +27,7 @@
 #include <ompl/geometric/PathGeometric.h>
 
 #include <atomic>
+#include <functional>
 #include <sys/resource.h>
 #include <cmath>
 #include <memory>
@@ -62,6 +64,7 @@ namespace world
         bool armed = false;
         long distCalls = 0;
         double cpuBudget = 1e9;
+        std::function<void()> onBudgetExhausted;
         std::atomic_flag lock = ATOMIC_FLAG_INIT;
         void onAlloc(const ob::State *s)
         {
@@ -113,7 +116,11 @@ namespace world
         {
             Ledger &l = ledger();
             if (l.armed && (++l.distCalls & 0x3fff) == 0 && cpuSeconds() > l.cpuBudget)
+            {
+                if (l.onBudgetExhausted)
+                    l.onBudgetExhausted();
                 throw BudgetExhausted();
+            }
             return Base::distance(a, b);
         }
     };
@@ -143,6 +150,8 @@ namespace world
         bool curved = false;    // rs / dubins
         long validBudget = -1;  // simulator step budget: validity calls allowed per case (<0: unlimited)
         double cpuBudget = 1e9;  // CPU seconds of the case after which a running solve is abandoned (inconclusive)
+        std::function<void()> onBudgetExhausted;  // if set, called instead of throwing (threaded engines: an exception
+                                                  // must not escape a planner's worker thread)
         int dim = 2;        // total real dimension for rv
         int pdim = 2;       // positional dimensions the obstacles live in
         double lo = 0, hi = 10;
@@ -287,7 +296,11 @@ namespace world
         {
             long n = ++w_->validCalls;
             if (w_->validBudget >= 0 && (n > w_->validBudget || ((n & 0xffff) == 0 && cpuSeconds() > w_->cpuBudget)))
+            {
+                if (w_->onBudgetExhausted)
+                    w_->onBudgetExhausted();
                 throw BudgetExhausted();
+            }
             if (w_->onValidityCall)
                 w_->onValidityCall();
             return w_->valid(s);
@@ -455,6 +468,7 @@ namespace world
         std::vector<ob::ScopedState<>> starts;      // as given (may include invalid / out-of-bounds ones)
         std::vector<ob::ScopedState<>> goalStates;  // for state / states goals
         std::string goalType;
+        std::shared_ptr<ob::GoalLazySamples> lazyGoal;  // "lazy": producer thread, started/stopped by the engine
         bool anyValidStart = false;
         bool anyValidGoal = true;
     };
@@ -493,6 +507,36 @@ namespace world
             }
             gs->setThreshold(thr);
             Q->pdef->setGoal(gs);
+        }
+        else if (Q->goalType == "lazy")
+        {
+            // goal states produced one by one by the library's sampling thread, each after a (simulated) delay
+            Q->anyValidGoal = false;
+            for (auto &s : g["states"].items())
+            {
+                Q->goalStates.push_back(w->stateFrom(s));
+                if (w->si->satisfiesBounds(Q->goalStates.back().get()) && w->valid(Q->goalStates.back().get()))
+                    Q->anyValidGoal = true;
+            }
+            long long delayNs = (long long)(g.getd("delay_ms") * 1e6);
+            auto next = std::make_shared<std::atomic<size_t>>(0);
+            Query *qp = Q.get();
+            World *wp = w.get();
+            auto fn = [qp, wp, delayNs, next](const ob::GoalLazySamples *, ob::State *st) {
+                size_t i = (*next)++;
+                if (i >= qp->goalStates.size())
+                    return false;
+                if (delayNs > 0)
+                {
+                    struct timespec ts = {(time_t)(delayNs / 1000000000LL), (long)(delayNs % 1000000000LL)};
+                    nanosleep(&ts, nullptr);
+                }
+                wp->ss->copyState(st, qp->goalStates[i].get());
+                return true;
+            };
+            Q->lazyGoal = std::make_shared<ob::GoalLazySamples>(w->si, fn, false);
+            Q->lazyGoal->setThreshold(thr);
+            Q->pdef->setGoal(Q->lazyGoal);
         }
         else  // region
         {
